@@ -328,7 +328,9 @@ func C01(tier string) int {
 	o := LoadOnto()
 	types, props := o.TypeKeys(), o.PropKeys()
 	var cases []c01case
-	add := func(class string, doc M, canon bool) { cases = append(cases, c01case{class: class, doc: doc, canon: canon}) }
+	add := func(class string, doc M, canon bool) {
+		cases = append(cases, c01case{class: class, doc: doc, canon: canon})
+	}
 	emb := func(tk string, n int) M { return embedded(o, tk, fmt.Sprintf("https://x.example/e%d", n)) }
 	maxSamples := 1
 	if res.Thorough() {
